@@ -161,59 +161,7 @@ func checkC01(c *Ctx, r *Report) {
 
 	// the emitters get the pipeline's metadata itself (no renamed/filtered copy)
 	checkManagerPassThrough(c, r, "C01.d")
-	// GetMethodHideOpts: a method carrying @Hidden - with or without a value - is hidden;
-	// `not hidden` is answered only when there is no annotation holder / no @Hidden attribute
-	if fi := need(c, r, "C01.a", "core/metadata.GetMethodHideOpts"); fi != nil {
-		viol := ""
-		var sites []string
-		nAlways := 0
-		var stack []ast.Node
-		w.inspectRegion(fi, func(n ast.Node) bool {
-			if n == nil {
-				stack = stack[:len(stack)-1]
-				return true
-			}
-			stack = append(stack, n)
-			rs, ok := n.(*ast.ReturnStmt)
-			if !ok || len(rs.Results) != 1 {
-				return true
-			}
-			cl := compositeOf(rs.Results[0])
-			if cl == nil {
-				viol = fmt.Sprintf("%s: GetMethodHideOpts returns something other than a MethodHideOptions literal", w.pos(rs.Pos()))
-				return true
-			}
-			typ := ""
-			for _, el := range cl.Elts {
-				if kv, ok := el.(*ast.KeyValueExpr); ok && exprString(kv.Key) == "Type" {
-					typ = exprString(kv.Value)
-				}
-			}
-			sites = append(sites, w.pos(rs.Pos()))
-			if strings.HasSuffix(typ, "HideMethodAlways") {
-				nAlways++
-				return true
-			}
-			// any other answer must sit directly under an `x == nil` test
-			underNil := false
-			for i := len(stack) - 2; i >= 0; i-- {
-				if is, ok := stack[i].(*ast.IfStmt); ok {
-					if be, ok := is.Cond.(*ast.BinaryExpr); ok && be.Op == token.EQL && exprString(be.Y) == "nil" {
-						underNil = true
-					}
-					break
-				}
-			}
-			if !underNil {
-				viol = fmt.Sprintf("%s: GetMethodHideOpts answers %s for a method that does carry @Hidden: such a method is documented although it was annotated to be kept out (IsHiddenAsset is true for HideMethodAlways only)", w.pos(rs.Pos()), typ)
-			}
-			return true
-		})
-		if nAlways == 0 {
-			viol = "GetMethodHideOpts never answers HideMethodAlways"
-		}
-		r.add("C01.a", "guardedby", fi.Key+":@Hidden=>always", "a method annotated @Hidden (any form) is hidden; `never` is answered only for a missing holder/attribute", []string{fi.Key}, sites, viol)
-	}
+	checkHiddenSemantics(c, r, "C01.a")
 
 	// IsHiddenAsset semantic skeleton: true iff Type == HideMethodAlways
 	if fi := need(c, r, "C01.a", "generator/swagen/swagtool.IsHiddenAsset"); fi != nil {
@@ -645,4 +593,59 @@ func checkVerbTables(c *Ctx, r *Report, clause string) {
 	}
 	sort.Strings(kinLabels)
 	ruleSubset(c, r, clause, "routeSupportedHttpVerbs⊆kin.SetOperation-cases", "every verb validation accepts is accepted by kin-openapi PathItem.SetOperation (which panics otherwise)", "definitions.routeSupportedHttpVerbs", supported, "kin-openapi SetOperation switch", kinLabels, append(sites[:1], ksites...))
+}
+
+// checkHiddenSemantics (C01.a / C02.g): a method carrying @Hidden - with or without a value - is
+// hidden; any other answer is given only where the annotation holder or the @Hidden attribute
+// is known to be missing (a nil test holds). Stated on exits and dominating facts, whatever
+// the shape of the function.
+func checkHiddenSemantics(c *Ctx, r *Report, clause string) {
+	w := c.W
+	fi := need(c, r, clause, "core/metadata.GetMethodHideOpts")
+	if fi == nil {
+		return
+	}
+	always := ""
+	if p := w.pkg("definitions"); p != nil {
+		if k, ok := p.Types.Scope().Lookup("HideMethodAlways").(*types.Const); ok {
+			always = k.Val().ExactString()
+		}
+	}
+	viol := ""
+	var sites []string
+	nAlways := 0
+	if always == "" {
+		viol = "definitions.HideMethodAlways not found"
+	}
+	for _, ex := range exitsOf(fi.SSA) {
+		if ex.Ret == nil || len(ex.Ret.Results) == 0 {
+			continue
+		}
+		sites = append(sites, w.pos(retPos(ex)))
+		a := sliceOf(unspill(ex.Ret.Results[0], ex.Block))
+		isAlways := false
+		for _, k := range a.Consts {
+			if k == always {
+				isAlways = true
+			}
+		}
+		if isAlways {
+			nAlways++
+			continue
+		}
+		underNil := false
+		for _, f := range dominatingFacts(ex.Block) {
+			cnd, pol := unwrapNot(f.Cond, f.Pol)
+			if bo, ok := cnd.(*ssa.BinOp); ok && (isNilConst(bo.X) || isNilConst(bo.Y)) && ((bo.Op == token.EQL && pol) || (bo.Op == token.NEQ && !pol)) {
+				underNil = true
+			}
+		}
+		if !underNil {
+			viol = fmt.Sprintf("%s: GetMethodHideOpts answers something other than HideMethodAlways for a method that does carry @Hidden (no `holder/attribute == nil` fact holds here): such a method is documented and counted as served-and-documented although it was annotated to be kept out (IsHiddenAsset is true for HideMethodAlways only)", w.pos(retPos(ex)))
+		}
+	}
+	if nAlways == 0 && viol == "" {
+		viol = "GetMethodHideOpts never answers HideMethodAlways"
+	}
+	r.add(clause, "guardedby", fi.Key+":@Hidden=>always", "a method annotated @Hidden (any form) is hidden; `never` is answered only for a missing holder/attribute", []string{fi.Key}, sites, viol)
 }
